@@ -188,6 +188,7 @@ func snapLenFacts() string {
 	// (`for { data, ci, err := s.handle.ZeroCopyReadPacketData(); if err == nil && vlanTagged(&ci) { continue };
 	// return data, &ci, err }`, vlanTagged = "ci.AncillaryData holds an afp.AncillaryVLAN")
 	dropsTagged := false
+	userFilter := false // every frame read is put through the program of the socket filter once more
 	readOK := false
 	serialised := false // reads are serialised with Close and report io.EOF afterwards
 	copies := false     // the frame is copied out of the ring
@@ -202,6 +203,11 @@ func snapLenFacts() string {
 						dropsTagged = true
 					case "if err == afp.ErrTimeout { continue }":
 						// a poll that timed out delivered nothing
+					case "filter := s.filter":
+						// read under the lock: the program SetBPFFilter stored
+					case "if err == nil && filter != nil { if n, ferr := filter.Run(data); ferr == nil && n == 0 { continue } }":
+						// the socket filter's own program, run on the frame that was read: a frame it rejects is skipped
+						userFilter = true
 					case "s.mu.Lock()", "s.mu.Unlock()":
 						serialised = true
 					case "if s.closed { s.mu.Unlock() return nil, nil, io.EOF }":
@@ -260,6 +266,25 @@ func snapLenFacts() string {
 		problem("snaplen: afpacket.Source.ReadPacketData does not return the ring's bytes as they are")
 		reaches = false
 	}
+	// … and that program is the one handed to the socket: SetBPFFilter disassembles the raw instructions it attaches,
+	// builds the VM from them and stores it (under the lock) after the attach succeeded
+	if userFilter {
+		fd := findFunc(af, "Source", "SetBPFFilter")
+		body := ""
+		if fd != nil {
+			body = src(fd.Body)
+		}
+		for _, want := range []string{"s.handle.SetBPF(bpfIns)", "bpf.Disassemble(bpfIns)", "bpf.NewVM(ins)", "s.filter = vm"} {
+			if !strings.Contains(body, want) {
+				problem("snaplen: frames are filtered in user space but SetBPFFilter lacks %q", want)
+				userFilter = false
+			}
+		}
+		if strings.Index(body, "s.handle.SetBPF(bpfIns)") > strings.Index(body, "s.filter = vm") {
+			userFilter = false
+		}
+	}
+	all["wiring.userSpaceFilter"] = userFilter
 	all["wiring.dropsVlanTagged"] = dropsTagged
 	all["wiring.readSerialisedWithClose"] = serialised
 	all["wiring.readCopiesFrame"] = copies
@@ -274,6 +299,8 @@ func snapLenFacts() string {
 	sb.WriteString("def dropsVlanTagged : Bool := " + leanBool(dropsTagged) + "\n\n")
 	sb.WriteString("/-- `afpacket.Source.ReadPacketData` and `Close` take one mutex, `Close` marks the source closed before it unmaps\n    the ring, a read after that reports io.EOF, and the frame handed out is a copy (so nothing touches the ring once\n    `Close` has returned: the receiver goroutine outlives the engine run that started it) -/\n")
 	sb.WriteString("def readSafeAgainstClose : Bool := " + leanBool(serialised && copies) + "\n\n")
+	sb.WriteString("/-- every frame `afpacket.Source.ReadPacketData` hands out has been put through the program of the socket filter in\n    user space as well (frames that were queued between the creation of the socket and the attach of the filter never saw it) -/\n")
+	sb.WriteString("def userSpaceFilter : Bool := " + leanBool(userFilter) + "\n\n")
 	// the two bodies as sequences of lock-protocol steps, in source order (Model/CaptureSource.lean gives them meaning)
 	opOf := func(st ast.Stmt) string {
 		t := src(st)
